@@ -68,6 +68,8 @@ class FunctionContract:
             it.callspecs[(fn, callee, k)] = f
         for c in self.uses:
             it.contracts[c.target] = c
+            if getattr(c, "writes_args", None) is not None:
+                it.callee_frames[c.target.split("::")[1].split(".")[-1]] = set(c.writes_args)
             c.install_nested(it)
         it.hooks.update(self.hooks)
         it.root = fn
